@@ -168,7 +168,52 @@ func condLiterals(fn *ssa.Function, cds map[*ssa.BasicBlock][]CtrlEdge, b *ssa.B
 	return out
 }
 
+// flagReadKey: two reads of the same flag variable or options field are the same condition even though they are different loads.
+func flagReadKey(v ssa.Value) string {
+	switch x := v.(type) {
+	case *ssa.Field:
+		return "field:" + exprStr(x)
+	case *ssa.UnOp:
+		if x.Op == token.MUL {
+			switch x.X.(type) {
+			case *ssa.FieldAddr, *ssa.Global, *ssa.Call:
+				return "load:" + exprStr(x)
+			}
+		}
+	case *ssa.BinOp:
+		if _, ok := x.Y.(*ssa.Const); ok {
+			if k := flagReadKey(x.X); k != "" {
+				return k + " " + x.Op.String() + " " + exprStr(x.Y)
+			}
+		}
+	}
+	return ""
+}
+
 func conflicting(a, b map[ssa.Value]map[bool]bool) bool {
+	// reads of one flag through different loads
+	ka := map[string]map[bool]bool{}
+	for v, pa := range a {
+		if k := flagReadKey(v); k != "" {
+			if ka[k] == nil {
+				ka[k] = map[bool]bool{}
+			}
+			for p := range pa {
+				ka[k][p] = true
+			}
+		}
+	}
+	for v, pb := range b {
+		if k := flagReadKey(v); k != "" {
+			if pa, ok := ka[k]; ok && len(pa) == 1 && len(pb) == 1 {
+				for p := range pa {
+					if pb[!p] {
+						return true
+					}
+				}
+			}
+		}
+	}
 	for v, pa := range a {
 		if pb, ok := b[v]; ok {
 			// a requires only one polarity and b only the opposite one
@@ -339,6 +384,92 @@ func ruleCLIStdout(c *Ctx, rule string) {
 			}
 		}
 	})
+	// ... or a field/variable registered with flag.BoolVar(&x, "debug", ...): every read of that field or variable
+	type fieldKey struct {
+		t   string
+		idx int
+	}
+	debugFields := map[fieldKey]bool{}
+	debugGlobals := map[*ssa.Global]bool{}
+	for _, fn := range mainFns {
+		instrsOf(fn, func(in ssa.Instruction) {
+			call, ok := in.(*ssa.Call)
+			if !ok || !isCallTo(in, "flag", "BoolVar") || len(call.Call.Args) < 2 {
+				return
+			}
+			k, ok := call.Call.Args[1].(*ssa.Const)
+			if !ok || k.Value == nil || constant.StringVal(k.Value) != "debug" {
+				return
+			}
+			switch a := call.Call.Args[0].(type) {
+			case *ssa.FieldAddr:
+				debugFields[fieldKey{types.TypeString(deref(a.X.Type()), nil), a.Field}] = true
+			case *ssa.Global:
+				debugGlobals[a] = true
+			}
+		})
+	}
+	isDebugVal := func(v ssa.Value) bool {
+		if debugVals[v] {
+			return true
+		}
+		switch x := v.(type) {
+		case *ssa.Field:
+			return debugFields[fieldKey{types.TypeString(x.X.Type(), nil), x.Field}]
+		case *ssa.UnOp:
+			if x.Op != token.MUL {
+				return false
+			}
+			switch a := x.X.(type) {
+			case *ssa.FieldAddr:
+				return debugFields[fieldKey{types.TypeString(deref(a.X.Type()), nil), a.Field}]
+			case *ssa.Global:
+				return debugGlobals[a]
+			}
+		}
+		return false
+	}
+	// functions of package main that can write to standard output and then return to their caller
+	writeReturn := map[*ssa.Function]bool{}
+	for changed := true; changed; {
+		changed = false
+		for _, fn := range mainFns {
+			if writeReturn[fn] {
+				continue
+			}
+			live := newLiveCFG(fn)
+			var rets []ssa.Instruction
+			instrsOf(fn, func(in ssa.Instruction) {
+				if _, ok := in.(*ssa.Return); ok {
+					rets = append(rets, in)
+				}
+			})
+			instrsOf(fn, func(in ssa.Instruction) {
+				call, ok := in.(ssa.CallInstruction)
+				if !ok || writeReturn[fn] {
+					return
+				}
+				writes := isCallTo(in, "fmt", "Print", "Printf", "Println")
+				for _, callee := range c.calleesOf(call) {
+					if callee.Pkg == fn.Pkg {
+						writes = writes || writeReturn[callee]
+					} else if _, ok := writers[callee]; ok {
+						writes = true
+					}
+				}
+				if !writes {
+					return
+				}
+				for _, ret := range rets {
+					if live.after(in, ret) {
+						writeReturn[fn] = true
+						changed = true
+						return
+					}
+				}
+			})
+		}
+	}
 	var fnsWithPoints []*ssa.Function
 	for fn := range points {
 		fnsWithPoints = append(fnsWithPoints, fn)
@@ -365,6 +496,9 @@ func ruleCLIStdout(c *Ctx, rule string) {
 			} else {
 				for _, callee := range c.calleesOf(call) {
 					if w, ok := writers[callee]; ok {
+						if callee.Pkg == fn.Pkg && !writeReturn[callee] {
+							continue // whatever it prints, it does not come back afterwards (usage message followed by exit)
+						}
 						why = fnName(callee) + " " + w
 					}
 				}
@@ -376,7 +510,7 @@ func ruleCLIStdout(c *Ctx, rule string) {
 			ob := r.Ob(rule, fmt.Sprintf("%s: stdout writer #%d (%s)", fnName(fn), n, shortCallee(call)), c.pos(in.Pos()))
 			lits := condLiterals(fn, cds, in.Block())
 			for v, pol := range lits {
-				if debugVals[v] && pol[true] && !pol[false] {
+				if isDebugVal(v) && pol[true] && !pol[false] {
 					ob.OKnt("control-dependent on the -debug flag")
 					return
 				}
@@ -573,18 +707,23 @@ func ruleCLIFlags(c *Ctx, rule string) {
 		return
 	}
 	got := map[string]string{}
-	instrsOf(mainFn, func(in ssa.Instruction) {
-		call, ok := in.(*ssa.Call)
-		if !ok || !isCallTo(in, "flag", "String", "Bool", "Func", "Int", "StringVar", "BoolVar") || len(call.Call.Args) == 0 {
-			return
+	for fn := range c.Reachable(mainFn) {
+		if fn.Pkg != mainFn.Pkg {
+			continue
 		}
-		for _, a := range call.Call.Args {
-			if k, ok := a.(*ssa.Const); ok && k.Value != nil && k.Value.Kind() == constant.String {
-				got[constant.StringVal(k.Value)] = staticCallee(in).Name()
-				break
+		instrsOf(fn, func(in ssa.Instruction) {
+			call, ok := in.(*ssa.Call)
+			if !ok || !isCallTo(in, "flag", "String", "Bool", "Func", "Int", "StringVar", "BoolVar") || len(call.Call.Args) == 0 {
+				return
 			}
-		}
-	})
+			for _, a := range call.Call.Args {
+				if k, ok := a.(*ssa.Const); ok && k.Value != nil && k.Value.Kind() == constant.String {
+					got[constant.StringVal(k.Value)] = staticCallee(in).Name()
+					break
+				}
+			}
+		})
+	}
 	want := map[string]string{"src": "String", "com": "String", "files": "String", "json": "Bool", "formatted-json": "Bool",
 		"json-file": "String", "formatted-json-file": "String", "replace-mode": "Func", "no-output": "Bool"}
 	for _, k := range sortedKeys(want) {
@@ -752,6 +891,34 @@ func ruleCLIOpenForWriting(c *Ctx, rule string) {
 					done = true
 				}
 			})
+			// the file comes from a helper that truncates what it returns
+			if fc, ok := file.(*ssa.Call); ok && !done {
+				if h := fc.Call.StaticCallee(); h != nil && c.isRepoFn(h) && len(h.Blocks) > 0 {
+					all, nret := true, 0
+					instrsOf(h, func(y ssa.Instruction) {
+						ret, ok := y.(*ssa.Return)
+						if !ok || len(ret.Results) == 0 {
+							return
+						}
+						nret++
+						okRet := false
+						instrsOf(h, func(z ssa.Instruction) {
+							if truncates(z, ret.Results[0]) && instrDominates(z, ret) {
+								okRet = true
+							}
+						})
+						if fl, ok := openFlags(ret.Results[0], 0); ok && fl&oTRUNC != 0 {
+							okRet = true
+						}
+						if !okRet {
+							all = false
+						}
+					})
+					if all && nret > 0 {
+						done = true
+					}
+				}
+			}
 			if done {
 				ob.OKnt("a Truncate of the same file dominates the write")
 			} else {
